@@ -13,10 +13,13 @@ use std::sync::Arc;
 #[derive(Serialize, Deserialize, Clone, Debug)]
 pub struct Cfg {
     pub count: u32,
-    /// 0 none, 1 delay 1000 ms, 2 interval 1500 ms
+    /// 0 none, 1 delay 1000 ms, 2 interval 1500 ms, 3 delay 0, 4 interval 0
     pub carousel: u8,
     pub immediate_stop: bool,
     pub full_fdt: bool,
+    /// multiplex_files of the single queue (0 = default 1): with 2 both objects are in transmission at once
+    #[serde(default)]
+    pub multiplex: u32,
 }
 
 pub const TICK: u64 = 500;
@@ -28,6 +31,8 @@ pub fn catalog(c: &Cfg) -> Vec<ObjSpec> {
     o0.carousel = match c.carousel {
         1 => Some(Carousel::Delay(1000)),
         2 => Some(Carousel::Interval(1500)),
+        3 => Some(Carousel::Delay(0)),
+        4 => Some(Carousel::Interval(0)),
         _ => None,
     };
     o0.immediate_stop = if c.immediate_stop { Some(true) } else { None };
@@ -40,6 +45,7 @@ pub fn catalog(c: &Cfg) -> Vec<ObjSpec> {
 pub fn sess(c: &Cfg) -> SessSpec {
     let mut s = SessSpec::basic(OtiSpec::new(Scheme::NoCode, 1424, 64, 0, true));
     s.full_fdt = c.full_fdt;
+    s.queues = vec![(0, c.multiplex.max(1))];
     s
 }
 
@@ -376,7 +382,14 @@ pub fn configs(thorough: bool) -> Vec<Cfg> {
                     if !thorough && ((count == 3 && carousel != 0) || (!full_fdt && (count != 2 || immediate_stop))) {
                         continue;
                     }
-                    v.push(Cfg { count, carousel, immediate_stop, full_fdt });
+                    v.push(Cfg { count, carousel, immediate_stop, full_fdt, multiplex: 1 });
+                    if count == 1 && !immediate_stop && carousel != 0 {
+                        // zero carousel periods: at a fixed instant the reads must still terminate
+                        v.push(Cfg { count, carousel: carousel + 2, immediate_stop, full_fdt, multiplex: 1 });
+                    }
+                    if count == 2 && (thorough || carousel != 2) {
+                        v.push(Cfg { count, carousel, immediate_stop, full_fdt, multiplex: 2 });
+                    }
                 }
             }
         }
